@@ -226,6 +226,21 @@ func runC09(c c09Case) *Violation {
 	if err != nil {
 		return viol("bin/start", "%v", err)
 	}
+	return runWorkload(c, o, in, func() {
+		raceMu.Lock()
+		for k, v := range racePool {
+			if v == in {
+				delete(racePool, k)
+			}
+		}
+		raceMu.Unlock()
+		in.Stop()
+	})
+}
+
+// runWorkload runs the clients of a workload program concurrently against an instance and applies the oracle:
+// no runtime fault on the instance's stderr, the process alive, every received packet well-formed.
+func runWorkload(c c09Case, o gwOpts, in *gwproc.Inst, drop func()) *Violation {
 	tgt := gwc.Target{Addr: in.Addr}
 	if !o.TokenAuth {
 		_, t2, _ := binFor(o, W().User) // only for the header; the pooled normal instance is not used
@@ -250,15 +265,8 @@ func runC09(c c09Case) *Violation {
 	w.L["A"].CloseConns()
 	time.Sleep(20 * time.Millisecond) // let the instance flush a report it may be writing
 	if f := in.Faults(); f != "" {
-		raceMu.Lock()
-		for k, v := range racePool {
-			if v == in {
-				delete(racePool, k)
-			}
-		}
-		raceMu.Unlock()
-		in.Stop()
-		sig := "c09/fault"
+		drop()
+		sig := "c09/fault/" + panicSite(f)
 		if strings.Contains(f, "DATA RACE") {
 			sig = "c09/data-race/" + raceSite(f)
 		} else if strings.Contains(f, "concurrent write to websocket") {
@@ -274,9 +282,28 @@ func runC09(c c09Case) *Violation {
 		}
 	}
 	if ex, code := in.Exited(); ex {
+		drop()
 		return viol("bin/exited", "gateway exited with %d: %s", code, tail(in.Stderr(), 600))
 	}
 	return nil
+}
+
+// C10_TRAFFIC: the same workload programs against the ordinary build: protocol errors, closes and disconnects while
+// the host is sending must not take the process down.
+func TestC10_TRAFFIC(t *testing.T) {
+	runProp(t, "C10_TRAFFIC", genC09, func(c c09Case) (bool, []string) {
+		return len(c.Clients) >= 1, []string{fmt.Sprintf("clients=%d", len(c.Clients))}
+	}, func(c c09Case) *Violation {
+		o := resolveHosts(c.Opts)
+		in, _, err := binFor(o, W().User)
+		if err != nil {
+			return viol("bin/start", "%v", err)
+		}
+		if v := runWorkload(c, o, in, func() { dropBin(in) }); v != nil {
+			return v
+		}
+		return binHealth(in)
+	})
 }
 
 // raceSite names the first repository function in a race report.
